@@ -171,7 +171,8 @@ class Edit:
 def _list_edit(r, w, make: Callable[[], Any], name: str, *, allow_remove_value=None) -> Edit:
     """Random MutableSequence operation on wrapper w with donors from make()."""
     n = len(w)
-    op = r.choice(['append', 'insert', 'pop', 'del', 'set', 'delslice', 'setslice', 'extend', 'clear', 'popinsert']
+    op = r.choice(['append', 'insert', 'pop', 'del', 'set', 'delslice', 'setslice', 'extend', 'clear', 'popinsert',
+                   'setfront', 'insert0']
                   if n else ['append', 'insert', 'extend', 'extend'])
     if op == 'append':
         e = Edit(f'{name}.append(new)')
@@ -226,6 +227,22 @@ def _list_edit(r, w, make: Callable[[], Any], name: str, *, allow_remove_value=N
             w[s] = vs
         except Exception as x:
             e.exc = x
+    elif op == 'setfront':      # several values at the front, old items staying behind
+        b = r.choice([0, 0, 1, min(2, n)])
+        k = r.choice([2, 2, 3])
+        e = Edit(f'{name}[0:{b}] = [new]*{k}')
+        vs = [make() for _ in range(k)]
+        try:
+            w[0:b] = vs
+        except Exception as x:
+            e.exc = x
+    elif op == 'insert0':
+        e = Edit(f'{name}.insert(0, new)')
+        v = make()
+        try:
+            w.insert(0, v)
+        except Exception as x:
+            e.exc = x
     elif op == 'extend':
         k = r.randrange(0, 3)
         e = Edit(f'{name}.extend([new]*{k})')
@@ -252,16 +269,60 @@ def _list_edit(r, w, make: Callable[[], Any], name: str, *, allow_remove_value=N
     return e
 
 
-def random_edit(r: random.Random, root, *, allow_comments: bool = True) -> Optional[Edit]:
-    """Applies one random syntax-preserving edit somewhere in `root`. Returns None if nothing applicable."""
+def toggle_names(r: random.Random, m) -> Optional[set]:
+    """Two or three optional value properties of m (toggling the same few fields repeatedly)."""
+    names = [k for k, pr in class_props(type(m)).items()
+             if isinstance(pr, (vprops.optional_string_property, vprops.optional_decimal_property,
+                                vprops.optional_date_property)) and not k.startswith('_')
+             and 'string' not in k and 'comment' not in k.replace('inline_comment', '')]
+    names += [k for k, pr in class_props(type(m)).items()
+              if isinstance(pr, props.custom_property) and pr._fset is not props._default_fset
+              and k in ('number_per', 'number_total', 'currency', 'payee', 'narration')]
+    if len(names) < 2:
+        return None
+    # a window of neighbours in declaration order: adjacent optional fields share pivots
+    k = min(len(names), r.choice([2, 2, 3]))
+    i = r.randrange(0, len(names) - k + 1)
+    return set(names[i:i + k])
+
+
+def pick_focus(r: random.Random, root):
+    """A model with several optional / repeated properties, to be edited repeatedly (focused histories: the
+    second and third edit of one model is where cached pivots, stale views and stale spans show up)."""
+    cands = [m for _, m in treewalk.walk(root) if isinstance(m, base.RawTreeModel) and not isinstance(m, internal.Repeated)
+             and type(m).__name__ in ('Posting', 'Transaction', 'Open', 'Balance', 'Note', 'Document', 'Custom', 'CostSpec',
+                                      'MetaItem', 'Plugin', 'Pushmeta', 'Close', 'Price', 'Event', 'Pad', 'Commodity')]
+    return r.choice(cands) if cands else None
+
+
+def random_edit(r: random.Random, root, *, allow_comments: bool = True, focus=None, only=None) -> Optional[Edit]:
+    """Applies one random syntax-preserving edit somewhere in `root` (or, with `focus`, on that model: its own
+    properties, not its descendants'). Returns None if nothing applicable."""
     nodes = [(p, m) for p, m in treewalk.walk(root)]
     trees = [(p, m) for p, m in nodes if isinstance(m, base.RawTreeModel)
              and not isinstance(m, internal.Repeated)]
     toks = [(p, m) for p, m in nodes if isinstance(m, base.RawTokenModel)]
+    if focus is not None:
+        trees = [(p, m) for p, m in trees if m is focus]
+        toks = []
     if not trees:
         return None
     for _ in range(30):
         kind = r.random()
+        if kind < 0.06 and focus is None:
+            # --- in-place arithmetic on a number expression attached inside the document
+            import operator
+            exprs = [(p, m) for p, m in nodes if isinstance(m, models.NumberExpr)]
+            if exprs:
+                p, n = r.choice(exprs)
+                opn, fn = r.choice([('+=', operator.iadd), ('-=', operator.isub), ('*=', operator.imul), ('/=', operator.itruediv)])
+                v = r.choice([2, D('2.5'), -3, D('-0.5'), 10])
+                e = Edit(f'{p} {opn} {v!r}')
+                try:
+                    fn(n, v)
+                except Exception as x:
+                    e.exc = x
+                return e
         if kind < 0.15 and toks:
             # --- token value
             p, t = r.choice(toks)
@@ -281,6 +342,8 @@ def random_edit(r: random.Random, root, *, allow_comments: bool = True) -> Optio
         if not cp:
             continue
         name, prop = r.choice(sorted(cp.items()))
+        if only is not None and name not in only:
+            continue
         if name.startswith('_') or 'string0' in name or 'string1' in name or 'string2' in name:
             continue        # string0/1/2 are the storage behind payee/narration (the documented API)
         full = f'{p}.{name}'
@@ -419,8 +482,8 @@ def random_edit(r: random.Random, root, *, allow_comments: bool = True) -> Optio
                 v = r.choice([None, s_number(r)])
             elif name in ('payee', 'narration'):
                 v = r.choice([None, s_string(r)])
-            elif isinstance(cur, str):
-                v = s_currency(r) if name == 'currency' else s_string(r)
+            elif isinstance(cur, str) or (cur is None and name == 'currency'):
+                v = r.choice([None, s_currency(r), s_currency(r)]) if name == 'currency' else s_string(r)
             elif isinstance(cur, datetime.date):
                 v = s_date(r)
             else:
